@@ -10,7 +10,8 @@
 //! gaining or replacing members).  The zone + diffs are served through
 //! `XfrMiddlewareSvc::preprocess` over a TCP context (with reserved bytes so
 //! that responses are split into several messages) for AXFR and for IXFR
-//! from every older serial, from the current serial and from an unknown one.
+//! from every older serial, from the current serial, from a newer and from an
+//! unknown older one.
 //! Each response stream is recorded, then fed through a real
 //! `XfrResponseInterpreter` + `ZoneUpdater` into a second zone; the two
 //! zones' walks are logged.  spec/Trace_Xfr.tla validates every event.
@@ -404,7 +405,10 @@ fn main() {
         for s in 1..=latest {
             plans.push((Rtype::IXFR, s));
         }
+        // a client ahead of the server (answered like an up-to-date one) and
+        // one whose version the server has no differences for (AXFR-style answer)
         plans.push((Rtype::IXFR, 50));
+        plans.push((Rtype::IXFR, 0));
         for (qtype, from) in plans {
             let limit = if rng.chance(1, 4) { 60000 } else { 220 + rng.below(400) as u16 };
             let req = mk_request(qtype, from as u32, limit);
@@ -417,7 +421,7 @@ fn main() {
             };
             // the receiving zone: the version the client claims to have, or
             // (AXFR / unknown serial) unrelated content
-            let (rs, rrecs): (i64, Vec<i64>) = if qtype == Rtype::IXFR && from <= latest {
+            let (rs, rrecs): (i64, Vec<i64>) = if qtype == Rtype::IXFR && from >= 1 && from <= latest {
                 versions[(from - 1) as usize].clone()
             } else {
                 (if from == 0 { 1 } else { from }, Content::random(&mut rng, &universe, 1, 3).rids())
@@ -436,7 +440,7 @@ fn main() {
             };
             // an IXFR client that holds the current version is told so by the
             // lone SOA (RFC 1995 2/4); nothing is transferred
-            let ev = if qtype == Rtype::IXFR && from == latest { "xfer_utd" } else { "xfer" };
+            let ev = if qtype == Rtype::IXFR && from >= latest { "xfer_utd" } else { "xfer" };
             tw.event(json!({"ev": ev, "req": qtype.to_int(), "from": from, "limit": limit,
                             "reserved": 65535 - limit as u32, "total": sizes.iter().sum::<usize>(),
                             "sizes": sizes, "msgs": abs,
